@@ -54,6 +54,10 @@ func (d *uintDecoder) parseUint(b []byte) (uint64, error) {
 		digitValue := pow10u64[maxDigit-i-1]
 		sum += c * digitValue
 	}
+	if maxDigit == pow10u64Len && (b[0] != '1' || sum < pow10u64[pow10u64Len-1]) {
+		// 20 digits fit only as 1xxxxxxxxxxxxxxxxxxx without wrapping around
+		return 0, fmt.Errorf("number out of range of uint64")
+	}
 	return sum, nil
 }
 
